@@ -5,6 +5,7 @@ import (
 	"io"
 	"os"
 	"testing"
+	"time"
 
 	"github.com/klauspost/compress/zstd"
 	iobject "github.com/nspcc-dev/neofs-node/internal/object"
@@ -33,16 +34,28 @@ func TestC41FSTree(t *testing.T) {
 	if err != nil {
 		ev.Inconclusive("zstd: %v", err)
 	}
-	fst := fstree.New(fstree.WithPath(root), fstree.WithDepth(2), fstree.WithNoSync(true))
-	if err := fst.Open(false); err != nil {
-		ev.Inconclusive("fstree open: %v", err)
+	mk := func(sub string, opts ...fstree.Option) *fstree.FSTree {
+		f := fstree.New(append([]fstree.Option{fstree.WithPath(root + "/" + sub), fstree.WithDepth(2), fstree.WithNoSync(true)}, opts...)...)
+		if err := f.Open(false); err != nil {
+			ev.Inconclusive("fstree open: %v", err)
+		}
+		if err := f.Init(common.ID{}); err != nil {
+			ev.Inconclusive("fstree init: %v", err)
+		}
+		return f
 	}
-	if err := fst.Init(common.ID{}); err != nil {
-		ev.Inconclusive("fstree init: %v", err)
+	// combined: small objects go to combined-format files (even a single Put);
+	// plain: one file per object.
+	trees := map[string]*fstree.FSTree{
+		"combined": mk("c", fstree.WithCombinedWriteInterval(20*time.Microsecond)),
+		"plain":    mk("p", fstree.WithCombinedCountLimit(1)),
 	}
-	defer fst.Close()
+	defer trees["combined"].Close()
+	defer trees["plain"].Close()
 
 	rapid.Check(t, func(t *rapid.T) {
+		layout := rapid.SampledFrom([]string{"combined", "combined", "plain"}).Draw(t, "layout")
+		fst := trees[layout]
 		n := 1
 		batch := rapid.IntRange(0, 3).Draw(t, "batch") == 0
 		if batch {
@@ -99,7 +112,7 @@ func TestC41FSTree(t *testing.T) {
 		}
 
 		for _, o := range objs {
-			labels := []string{"kind:" + o.kind}
+			labels := []string{"kind:" + o.kind, "layout:" + layout}
 			if batch {
 				labels = append(labels, "batch")
 			} else {
